@@ -226,7 +226,9 @@ def _finally_filter(run, P):
                "statement), and must not iterate the dict it is deleting from")
     # filter
     ok = False
-    if not (norm(inner) in ("self.context.keys()", "self.context")) and tracked:
+    filtered_in_loop = any(isinstance(n_, ast.If) and "is_state_variable(" in norm(n_.test)
+                           for n_ in ast.walk(outer))
+    if not (norm(inner) in ("self.context.keys()", "self.context")) and tracked and not filtered_in_loop:
         # the set holds per-step names only: the test is made where names enter it
         adds_ = tracked_entries(P, tracked)
         if not adds_:
